@@ -72,7 +72,9 @@ def observe(case):
     from aiorpcx.jsonrpc import handler_invocation, Request, RPCError
     h = build(case)
     call = case['call']
-    args = [1] * call['n'] if 'n' in call else {g: 1 for g in call['given']}
+    # whether a call binds does not depend on the VALUES passed: named calls are also made with null / falsy values
+    val = {'one': 1, 'none': None, 'zero': 0, 'empty': '', 'false': False, 'list': []}[call.get('val', 'one')]
+    args = [val] * call['n'] if 'n' in call else {g: val for g in call['given']}
     res = {}
     try:
         inv = handler_invocation(h, Request('m', args))
@@ -106,7 +108,7 @@ class C19(Prop):
     shard = 400
     rule = ('ALL well-formed signatures of <= L parameters over the five kinds x defaults (L=3 quick, 4 thorough), as plain '
             'functions, bound methods, partials with positional and keyword pre-binding, x all positional counts 0..n+2 x '
-            'all subsets of present / missing / unknown names; exhaustive; each case carries the outcome of the actual '
+            'all subsets of present / missing / unknown names (named calls also with null and falsy values); exhaustive; each case carries the outcome of the actual '
             'Python call; non-trivial = signature has >= 2 parameters; distinct = distinct (style, signature, call)')
     assumptions = ('inspect.signature is trusted to report the parameters of methods and partials',)
 
@@ -142,6 +144,10 @@ class C19(Prop):
                             self._count += 1
                             yield {'style': style, 'sig': [list(x) for x in sig], 'prebind': pre,
                                    'call': {'given': list(given)}}
+                            if given and style in ('plain', 'method'):
+                                self._count += 1
+                                yield {'style': style, 'sig': [list(x) for x in sig], 'prebind': pre,
+                                       'call': {'given': list(given), 'val': ('none', 'zero', 'empty', 'false', 'list', 'none')[self._count % 6]}}
 
     def run_impl(self, case):
         return observe(case)
